@@ -64,7 +64,8 @@ def reach(snap, v, accept=lambda a, b, l: True):
     return seen
 
 
-def build_graph(rng, hd, cap, n, k, m, stale=False, data=True, tree=False, ids=None, labels=None, dangling=False, many_groups=False):
+def build_graph(rng, hd, cap, n, k, m, stale=False, data=True, tree=False, ids=None, labels=None, dangling=False, many_groups=False,
+                crowd=False):
     """ops that build a random digraph (cycles, shared targets, parallel edges)
     on handle hd inside the limits; returns (ops, vertices)"""
     labels = labels or SAFE_LABELS
@@ -94,6 +95,13 @@ def build_graph(rng, hd, cap, n, k, m, stale=False, data=True, tree=False, ids=N
             ops += ["ADD %s %d" % (hd, a), "ADD %s %d" % (hd, b), "BIND %s %d %d %s" % (hd, a, b, gen.lab_alpha(1))]
             if rng.chance(1, 3):
                 ops.append("PUT %s %d %s" % (hd, b, gen.gen_data(rng)))
+    if crowd and cap - len(ids) >= 320 and not os.environ.get("VERIF_NO_W9"):
+        # more than 255 present vertices in all (bystanders without edges, a few with data)
+        rest = [v for v in range(cap) if v not in ids][40:]
+        for j, v in enumerate(rest[:rng.pick([250, 256, 270])]):
+            ops.append("ADD %s %d" % (hd, v))
+            if j % 97 == 5:
+                ops.append("PUT %s %d %s" % (hd, v, gen.gen_data(rng)))
     for v in ids:
         ops.append("ADD %s %d" % (hd, v))
     used = {v: [] for v in ids}
@@ -170,7 +178,7 @@ class C18(Prop):
             cap = r.pick([6, 12, 20, 256, 600])
             k = 1 + r.below(min(10, cap - 2))
             ops1, ids = build_graph(r, "g", cap, N, k, r.below(2 * k + 1), stale=r.chance(1, 2), dangling=r.chance(1, 3),
-                                    many_groups=(cap == 256 and r.chance(1, 2)))
+                                    many_groups=(cap == 256 and r.chance(1, 2)), crowd=(cap == 600 and r.chance(1, 4)))
             ops = ["NEW g %d" % cap] + ops1
             # the same content again: other capacity, shuffled order, other representation of the data.
             # The content of g is computed by the steering tracker (present set, last edge per label, last datum);
@@ -326,7 +334,7 @@ class C20(Prop):
             cap = r.pick([4, 8, 14, 30, 256, 600])
             k = 1 + r.below(min(12, cap))
             ops1, ids = build_graph(r, "g", cap, N, k, r.below(3 * k + 1), stale=r.chance(1, 3), dangling=r.chance(1, 3),
-                                    many_groups=(cap == 256 and r.chance(1, 2)))
+                                    many_groups=(cap == 256 and r.chance(1, 2)), crowd=(cap == 600 and r.chance(1, 4)))
             ops = ["NEW g %d" % cap] + ops1 + ["SNAP g", "DEBUG g"]
             for v in ids:
                 ops += ["INSPECT g %d" % v, "VPRINT g %d" % v]
@@ -511,7 +519,7 @@ class C13(Prop):
             cap = r.pick([5, 9, 14, 20, 64, 200, 256, 600])
             k = 1 + r.below(min(14, cap))
             ops1, ids = build_graph(r, "g", cap, N, k, r.below(3 * k + 1), stale=False, data=r.chance(1, 2),
-                                    many_groups=(cap >= 64 and r.chance(1, 3)))
+                                    many_groups=(cap >= 64 and r.chance(1, 3)), crowd=(cap == 600 and r.chance(1, 4)))
             ops = ["NEW g %d" % cap] + ops1 + ["SNAP g"]
             edges = [(o.split()[2], o.split()[3], o.split()[4]) for o in ops1 if o.startswith("BIND")]
             for j in range(3):
@@ -1004,6 +1012,21 @@ class C08(Prop):
                 pairs.append((len(ops) - 2, len(ops) - 1))
             ops += ["NEXT h", "KEYS g", "KEYS h"]
             hs.append(History("c08-%d" % i, h0.n, ops, {"save_at": k, "pairs": pairs, "cap": h0.meta["cap"]}))
+        # data whose length crosses the 2-byte length form of the image (65535 / 65536) and well beyond
+        for j, (l1, l2, l3) in enumerate([] if os.environ.get("VERIF_NO_W9") else [(65535, 65536, 70000), (65536, 250, 251), (131072, 65537, 0)]):
+            r = rng.fork()
+            big = lambda l: "V" + bytes(r.below(256) for _ in range(l)).hex()
+            ops = ["NEW g 8", "ADD g 1", "ADD g 2", "ADD g 3", "BIND g 1 2 %s" % gen.lab_alpha(0),
+                   "PUT g 1 %s" % big(l1), "PUT g 2 %s" % big(l2), "PUT g 3 %s" % big(l3), "DATA g 3"]
+            k = len(ops)
+            ops += ["SAVE g img", "LOAD img h"]
+            pairs = []
+            for o in ["DATA g 3", "DATA g 1", "PUT g 3 %s" % big(l2), "DATA g 3", "DATA g 2"]:
+                p = o.split()
+                ops += [o, " ".join([p[0], "h"] + p[2:])]
+                pairs.append((len(ops) - 2, len(ops) - 1))
+            ops += ["NEXT h", "KEYS g", "KEYS h"]
+            hs.append(History("c08-huge%d" % j, 4, ops, {"save_at": k, "pairs": pairs, "cap": 8}))
         return hs
 
     @staticmethod
